@@ -46,8 +46,32 @@ CAUSE = {
  'C18-H': 'no Go value with []byte and no YAML matcher among the interposed calls: both added',
  'C19-H': 'needs a working directory that is not the test file\'s (caught by C11): shard processes now run in a directory six levels deep, so a path relative to the test file resolved against it lands elsewhere',
  'C20-H': 'names of stale items had no `%`: stale id and stale file now carry format verbs',
+ # round 5
+ 'C01-I': 'no update inside the process that replays: every value is now replaced by one of the same formatted length under Update(true) and the new values are replayed in the same process (a reader that trusts the file size sees no change)',
+ 'C01-J': 'needs two tests appending entries above 4 KiB at the same time; C01 is sequential by construction — caught by C06 (the `-big` kinds under every schedule), not by C01',
+ 'C02-J': 'the stored text of a JSON entry always came from the same format options as the call: recorded under other Indent / SortKeys / Width, matched under the defaults added',
+ 'C03-J': 'no file above one read buffer with many slots: 90 slots of two tests in a 160 KB file, one early slot grown under update, everything replayed',
+ 'C04-J': 'standalone value pairs had no pair differing only in the final newline: a\\n/a, \\n/"", a\\n\\n/a\\n, trailing blank and trailing CR added',
+ 'C05-I': 'directories were observed but no case had an EMPTY snapshot directory addressed by calls that may not create: added (nested too), in every mode',
+ 'C07-I': 'all pre-existing files were well formed: an addressed file that is examined first and whose last entry lost its terminator added (C07 and C10)',
+ 'C08-J': 'every skipped subtest had a parent that also made calls into the file: program P6 (files owned by subtests only) added',
+ 'C09-I': 'directory names had dots but no glob metacharacter: `pkg[1]` with a sibling `pkg1` added',
+ 'C09-J': 'no stale file equal to an addressed file up to letter case: F.snap / testa_1.snap added',
+ 'C10-J': 'numbers in ids had at most two digits: a ten-digit run next to a two-digit one added',
+ 'C06-J': 'concurrent tests had names without a prefix relation (TestT0, TestT1): now TestT, TestT1, TestT10 (C03 caught the sibling change C03-I at first run)',
+ 'C11-I': 'GOFLAGS of the test binary was unset or exactly -trimpath: `-trimpath=false` / `-trimpath=0` with a foreign working directory added',
+ 'C11-J': 'Dir was unset or non-empty: the option given with the empty string added',
+ 'C12-I': 'every Config had its own option values: one `snaps.JSON(...)` value shared by the Configs of a case, one of them with a second JSON option, added',
+ 'C12-J': 'the second Config of a pair was used without the first having been used: a call through the first Config before the call through the second added',
+ 'C15-I': 'the multi-path Any used a placeholder that needs no escaping: one with quote, backslash, tab and a non-ASCII letter added',
+ 'C16-I': 'no key starting with `$`: document with $id/id, $ref, $oid added (JSON paths only)',
+ 'C16-J': 'variants never EQUALLED what the matcher writes, and never respelled a number: `\\u003ccustom\\u003e`, `\\u003cAny value\\u003e`, 42.0, 4.2e1 added as variants',
+ 'C17-I': 'paths of one matcher never overlapped: Any("c", "c.d") added (caught by C15 at first run)',
+ 'C17-J': 'YAML scalars were plain: `!!str 10`, `&an 4`, `*an` added with wrong-type Type and a rejecting Custom',
+ 'C18-I': 'map keys of the Go values were pairwise different under natural ordering: keys equal up to leading zeros added (21 marshallings, fresh processes)',
+ 'C19-J': 'test names had `%`, `#`, `/` but none of `: * ? " < > |`: two such names, and pairs of tests whose names differ only there, added',
 }
-letters = {1:'AB',2:'CD',3:'EF',4:'GH'}[rnd]
+letters = {1:'AB',2:'CD',3:'EF',4:'GH',5:'IJ'}[rnd]
 rows=[]; own=anyc=valid=0
 for d in sorted(glob.glob('/verif/seeded/C??-['+letters+']')):
     m=json.load(open(d+'/meta.json'))
